@@ -26,7 +26,7 @@ TEXT = {
             "Whole files, BGZF layer, text parsing and IndexMap-heavy paths are outside the bound; sizes per obligation.", TECH_KANI),
     "C05": ("§5 C05", "Solver-decided per-field encoder/decoder inverses of the BAM record codec over all values of each field (positions, flags, MAPQ, TLEN, CIGAR ops, bases, qualities, aux scalars), CIGAR-overflow rule, region_to_bin == SAM-spec reg2bin for all 1<=s<=e<=2^29, validate()=>lazy accessors in range on small symbolic records.",
             "Whole-record composition only for small concrete layouts; records larger than the stated sizes and header dictionary lookups outside the bound.", TECH_KANI),
-    "C06": ("§9 C06", "Narrow, solver-decided: the SAM quality-score text codec only (writer accepts exactly scores <=93 and emits score+33; reader accepts exactly the printable range and returns byte-33 => inverse on everything writable, for all byte values).",
+    "C06": ("§9 C06", "Narrow, solver-decided SAM text kernels: the quality-score text codec (writer accepts exactly scores <=93 and emits score+33; reader accepts exactly the printable range and returns byte-33 => inverse on everything writable, for all byte values), CIGAR op kind tables reader<->writer, decimal text of all u8/u16 values, and the aux integer domain (Value::try_from(i64) accepts exactly [i32::MIN, u32::MAX], reads back equal, smallest type).",
             "Headers, floats, whole-line tokenisation and SAM<->BAM record-set equivalence are outside (lexical-core / String / IndexMap paths not encodable within reach).", TECH_KANI),
     "C07": ("§9 C07", "Narrow, solver-decided CRAM kernels: block framing write->read inverse with an exact CRC-32 model (layout, declared sizes, corruption detected) and ITF8 size accounting == bytes written for all i32.",
             "Whole containers/slices, data-series interleaving, external codecs in situ are outside the bound.", TECH_KANI),
